@@ -578,6 +578,6 @@ pub fn c14(run: &mut Run) {
             let _ = std::fs::remove_file(&stats);
         }
     }
-    crate::fuzzdrv::campaign(run, "fz_c14", 3_200_000);
-    crate::fuzzdrv::campaign(run, "fz_c14f", 3_200_000);
+    crate::fuzzdrv::campaign(run, "fz_c14", 12_800_000);
+    crate::fuzzdrv::campaign(run, "fz_c14f", 12_800_000);
 }
